@@ -124,7 +124,7 @@ fn ffi(src: &str, path: Option<&str>, resp: &[serde_json::Value], by_step: bool,
                 TsRunStepStatus::Continue => { stop = false; }
                 TsRunStepStatus::Complete => {
                     o.status = "COMPLETE".into();
-                    o.value = if !sr.value.is_null() && tsrun_is_string(sr.value) { CStr::from_ptr(tsrun_get_string(sr.value)).to_string_lossy().to_string() } else if sr.value.is_null() { "<null>".into() } else { "<non-string>".into() };
+                    o.value = if !sr.value.is_null() && tsrun_is_string(sr.value) { CStr::from_ptr(tsrun_get_string(sr.value)).to_string_lossy().to_string() } else if sr.value.is_null() { "<null>".into() } else { format!("<{}>", ffi_canon(sr.value)) };
                 }
                 TsRunStepStatus::Done => { o.status = "DONE".into(); }
                 TsRunStepStatus::Error => { o.status = "ERROR".into(); o.err = if sr.error.is_null() { String::new() } else { CStr::from_ptr(sr.error).to_string_lossy().chars().take(80).collect() }; }
@@ -191,11 +191,13 @@ pub fn main(_args: &[String]) -> i32 {
         let r = std::panic::catch_unwind(std::panic::AssertUnwindSafe(|| {
             let mut runs = serde_json::Map::new();
             let none: Vec<(String, String)> = Vec::new();
-            runs.insert("step".into(), native(&src, Some("/p/main.ts"), &resp, "step", &none, None).json());
-            runs.insert("eval".into(), native(&src, Some("/p/main.ts"), &resp, "eval", &none, None).json());
-            runs.insert("step_reads".into(), native(&src, Some("/p/main.ts"), &resp, "reads", &none, None).json());
-            runs.insert("ffi_run".into(), ffi(&src, Some("/p/main.ts"), &resp, false, &none).json());
-            runs.insert("ffi_step".into(), ffi(&src, Some("/p/main.ts"), &resp, true, &none).json());
+            // "script": true runs the program WITHOUT a module path (a script) through every entry point
+            let path = if j["script"].as_bool().unwrap_or(false) { None } else { Some("/p/main.ts") };
+            runs.insert("step".into(), native(&src, path, &resp, "step", &none, None).json());
+            runs.insert("eval".into(), native(&src, path, &resp, "eval", &none, None).json());
+            runs.insert("step_reads".into(), native(&src, path, &resp, "reads", &none, None).json());
+            runs.insert("ffi_run".into(), ffi(&src, path, &resp, false, &none).json());
+            runs.insert("ffi_step".into(), ffi(&src, path, &resp, true, &none).json());
             if !dep.is_empty() {
                 // the same program as a host-supplied dependency and as a registered internal source module
                 let main_dep = "import { result } from \"./dep.ts\";\nresult;\n";
